@@ -13,7 +13,7 @@ import builtins
 from .core import walk_local
 from .rules import flow_of
 
-BUILTINS = set(dir(builtins))
+BUILTINS = set(dir(builtins)) | {"__file__", "__name__", "__doc__", "__package__", "__spec__", "__class__"}
 
 # functions that return a value on some paths and fall off the end on others *by design* (confirmed by reading)
 MIXED_RETURN_OK = {
@@ -22,6 +22,10 @@ MIXED_RETURN_OK = {
     "get_evse_by_type": "returns None for an unknown type string (C16.F1 checks that the site models only use known type strings)",
     "Interface.last_applied_pilot_signals": "",
 }
+
+
+def _has_star_import(repo, rel):
+    return any(isinstance(n, ast.ImportFrom) and any(a.name == "*" for a in n.names) for n in ast.walk(repo.trees[rel]))
 
 
 def _module_names(repo, rel):
@@ -75,6 +79,12 @@ def check_function(ck, prop, f):
         enclosing |= {n.name for n in ast.walk(p.node) if isinstance(n, (ast.FunctionDef, ast.ClassDef))}
         p = p.parent
     known_elsewhere = _module_names(repo, f.module) | BUILTINS | enclosing | declared
+    star = _has_star_import(repo, f.module)
+    nested_defs = {n.name for n in walk_local(fn) if isinstance(n, (ast.FunctionDef, ast.AsyncFunctionDef, ast.ClassDef))}
+    nested_defs |= {a.asname or a.name.split(".")[0] for n in walk_local(fn) if isinstance(n, (ast.Import, ast.ImportFrom)) for a in n.names}
+    nested_defs |= {h.name for n in walk_local(fn) if isinstance(n, ast.Try) for h in n.handlers if h.name}
+    a_ = fn.args
+    params = {x.arg for x in a_.posonlyargs + a_.args + a_.kwonlyargs} | ({a_.vararg.arg} if a_.vararg else set()) | ({a_.kwarg.arg} if a_.kwarg else set())
     n_reads = 0
     reported = set()
     for node in cfg.nodes:
@@ -84,7 +94,17 @@ def check_function(ck, prop, f):
             for x in [e] + list(walk_local(e, into_lambda=False)):
                 if not (isinstance(x, ast.Name) and isinstance(x.ctx, ast.Load)):
                     continue
-                if x.id not in local_stores or x.id in scoped or x.id in known_elsewhere and x.id not in local_stores:
+                if x.id in scoped or x.id in params:
+                    continue
+                if x.id in nested_defs:
+                    continue
+                if x.id not in local_stores:
+                    # not assigned anywhere in this function: it must be a name of the module, an enclosing function or a builtin
+                    # (a module with `from x import *` can receive any name: not judged)
+                    if not star and x.id not in known_elsewhere and x.id not in reported:
+                        reported.add(x.id)
+                        ck.violation(f"{prop}.G1", f, x, f"`{x.id}` is read here but is defined neither in this function nor in its module (the assignment "
+                                     f"that introduced it is gone): NameError when this line runs", sink=f"undefined:{x.id}")
                     continue
                 # the statement's own target does not count as a definition for its right-hand side: defs_at gives the definitions
                 # reaching the *entry* of the node
